@@ -16,8 +16,9 @@ accepted downlink (`header_refines`, `timeout_refines`, `accept_refines`, `setAd
 
 That induction is carried out in `history_header_bits` (over `Model/History.lean`, with the reference
 session tracker of `Lemmas/Ghost.lean` deciding which downlinks are accepted): along every run every
-data uplink carries the automaton's header bits and, in regions with a dynamic plan, goes out at the
-automaton's data rate (`TxAt`); the automaton moves by `afterSend` then `timeout` / `accept`
+data uplink carries the automaton's header bits and goes out at the automaton's data rate (`TxAt`: in
+regions with a dynamic plan always; in US915/AU915 when no join bias was configured — `NoBias`, an
+invariant of every history, `step_nobias`); the automaton moves by `afterSend` then `timeout` / `accept`
 (`AdrStep`), its data rate changing otherwise only by `set_datarate` or by an accepted Class A frame
 that carries a LinkADRReq (`answers_adr`: no other MAC command touches it; the commanded value: C08).
 -/
@@ -169,13 +170,13 @@ requested message type; then: no accepted downlink ⇒ `timeout` (count + 1, ste
 128, …); a frame accepted in a Class A window ⇒ `accept` (count restarts, ACK owed if confirmed); a
 radio fault after the procedure counts as one more timeout.  Class C acceptances restart the count;
 `set_adr`, `set_datarate` are the automaton's; activation clears ACK and count. -/
-def AdrStep (r : RegionId) (g : DG) (ev : Ev) (out : Out) (g' : DG) : Prop :=
+def AdrStep (r : RegionId) (nb : Bool) (g : DG) (ev : Ev) (out : Out) (g' : DG) : Prop :=
   g'.1 = ghStep g.1 ev ∧
   match ev, g.1 with
   | .uplink _ _ conf fault rx1 rx2 mp1 mp2, some last =>
     ∃ so resp dl, out = .up so resp dl ∧
       (so.frame.ack, so.frame.adr, so.frame.adrAckReq) = g.2.header (lowerExists r) ∧ so.frame.confirmed = conf ∧
-      (r.isFixed = false → TxAt r g.2.dr so.tx) ∧
+      ((r.isFixed = false ∨ nb = true) → TxAt r g.2.dr so.tx) ∧
       (match upRes last fault rx1 rx2 mp1 mp2, fault with
        | .accepted _ d _, none => AcceptedA g.2.afterSend d g'.2
        | .accepted _ d _, some _ => ∃ a1, AcceptedA g.2.afterSend d a1 ∧ g'.2 = tmo r (bump so.frame.fcnt) a1
@@ -194,8 +195,9 @@ def AdrStep (r : RegionId) (g : DG) (ev : Ev) (out : Out) (g' : DG) : Prop :=
 
 /-- the tie: the automaton's ADR switch and data rate are the configuration's (joined or not); ACK
 owed and count are the session's -/
-def AdrRel (r : RegionId) (m : MacState) (g : DG) : Prop :=
+def AdrRel (r : RegionId) (nb : Bool) (m : MacState) (g : DG) : Prop :=
   GhRel m g.1 ∧ MacWF m ∧ m.region.id = r ∧ g.2.adrOn = m.cfg.adrEnabled ∧ g.2.dr = m.cfg.dataRate ∧
+    (nb = true → ∀ p, m.region.plan = .fix p → p.jc.preferredSubband = none) ∧
     ∀ s, m.st = .joined s → g.2.ackOwed = s.ackOwed ∧ g.2.cnt = s.adrAckCnt
 
 theorem absRel {m : MacState} {s : Session} (hst : m.st = .joined s) : 
@@ -347,6 +349,301 @@ theorem macSend_txAt {σ} (g : Rng σ) (m m1 : MacState) (s : Session) (hst : m.
   rw [e, hn, Nat.mod_eq_of_lt (by omega)] at hg
   exact ⟨tx.datarate, hg, rfl, rfl⟩
 
+
+/-- no join bias is configured (`set_join_bias` was never called; US915/AU915 only) -/
+def NoBias (rs : RegionState) : Prop := ∀ p, rs.plan = .fix p → p.jc.preferredSubband = none
+
+theorem availGetNext_nobias {σ} (g : Rng σ) (j j' : JoinChannels) (s s' : σ) (ch : Nat)
+    (h : availGetNext g j s = .ok (ch, j', s')) : j'.preferredSubband = j.preferredSubband := by
+  unfold availGetNext at h
+  simp only at h
+  obtain ⟨⟨c, s1⟩, _, h⟩ := Except.bind_eq_ok h
+  obtain ⟨a, _, h⟩ := Except.bind_eq_ok h
+  simp only [pure, Except.pure, Except.ok.injEq, Prod.mk.injEq] at h
+  obtain ⟨_, rfl, _⟩ := h
+  rfl
+
+theorem getNextChannel_nobias {σ} (g : Rng σ) (j j' : JoinChannels) (s s' : σ) (ch : Nat) (hn : j.preferredSubband = none)
+    (h : j.getNextChannel g s = .ok (ch, j', s')) : j'.preferredSubband = none := by
+  unfold JoinChannels.getNextChannel at h
+  simp only [hn] at h
+  have := availGetNext_nobias g _ j' s s' ch h
+  rw [this]
+
+/-- without a join bias a fixed plan sends a data frame at the data rate `send` was given, and no
+bias appears -/
+theorem selectTxChannel_nobias {σ} (g : Rng σ) (rs rs' : RegionState) (dr : DR) (frame : FrameKind) (s s' : σ)
+    (tx : TxChannel) (hn : NoBias rs) (h : selectTxChannel g rs dr frame s = .ok (tx, rs', s')) :
+    NoBias rs' ∧ (frame = .data → tx.dr = dr) := by
+  cases hp : rs.plan with
+  | dyn p =>
+    have hd := selectTxChannel_dyn_dr g rs rs' p hp dr frame s s' tx h
+    refine ⟨?_, fun _ => hd⟩
+    unfold selectTxChannel at h
+    simp only [hp] at h
+    obtain ⟨drv, _, h⟩ := Except.bind_eq_ok h
+    cases frame with
+    | join =>
+      simp only at h
+      obtain ⟨⟨idx, s1⟩, _, h⟩ := Except.bind_eq_ok h
+      simp only at h
+      split at h
+      · obtain ⟨d, _, h⟩ := Except.bind_eq_ok h
+        cases Except.pure_eq_ok h
+        exact hn
+      · cases h
+    | data =>
+      simp only at h
+      obtain ⟨ua, _, h⟩ := Except.bind_eq_ok h
+      obtain ⟨p', _, h⟩ := Except.bind_eq_ok h
+      obtain ⟨⟨c, s1⟩, _, h⟩ := Except.bind_eq_ok h
+      obtain ⟨d, _, h⟩ := Except.bind_eq_ok h
+      cases Except.pure_eq_ok h
+      intro q hq; cases hq
+  | fix p =>
+    have hpn := hn p hp
+    unfold selectTxChannel at h
+    simp only [hp] at h
+    obtain ⟨⟨dr', channel, jc, mask, s1⟩, hsel, h⟩ := Except.bind_eq_ok h
+    simp only at h
+    obtain ⟨oi, _, h⟩ := Except.bind_eq_ok h
+    obtain ⟨d, _, h⟩ := Except.bind_eq_ok h
+    have hres : rs'.plan = .fix { mask := mask, jc := jc } := by
+      split at h
+      · cases Except.pure_eq_ok h; rfl
+      · cases h
+    suffices hs : jc.preferredSubband = none ∧ (frame = .data → dr' = dr) by
+      refine ⟨fun q hq => ?_, fun hf => ?_⟩
+      · rw [hres] at hq; cases hq; exact hs.1
+      · split at h
+        · cases Except.pure_eq_ok h; exact hs.2 hf
+        · cases h
+    cases frame with
+    | join =>
+      simp only at hsel
+      obtain ⟨⟨ch, jc', s2⟩, hg, hsel⟩ := Except.bind_eq_ok hsel
+      simp only [pure, Except.pure, Except.ok.injEq, Prod.mk.injEq] at hsel
+      obtain ⟨_, _, rfl, _, _⟩ := hsel
+      exact ⟨getNextChannel_nobias g p.jc jc' s s2 ch hpn hg, fun hf => by cases hf⟩
+    | data =>
+      simp only at hsel
+      have hb : p.jc.hasBiasAndNotExhausted = false := by simp [JoinChannels.hasBiasAndNotExhausted, hpn]
+      simp only [hb, Bool.false_eq_true, if_false, pure, Except.pure, bind, Except.bind] at hsel
+      have hfd : p.jc.firstDataChannel g s = (none, p.jc, s) := by simp [JoinChannels.firstDataChannel, hpn]
+      simp only [hfd] at hsel
+      split at hsel
+      · cases hsel
+      · split at hsel
+        · cases hsel
+        · split at hsel
+          · split at hsel
+            · cases hsel
+            · split at hsel
+              · cases hsel
+              · split at hsel
+                · cases hsel
+                · simp only [Except.ok.injEq, Prod.mk.injEq] at hsel
+                  obtain ⟨rfl, _, rfl, _, _⟩ := hsel
+                  exact ⟨hpn, fun _ => rfl⟩
+          · split at hsel
+            · cases hsel
+            · split at hsel
+              · cases hsel
+              · split at hsel
+                · cases hsel
+                · simp only [Except.ok.injEq, Prod.mk.injEq] at hsel
+                  obtain ⟨rfl, _, rfl, _, _⟩ := hsel
+                  exact ⟨hpn, fun _ => rfl⟩
+
+
+theorem noBias_dyn {rs : RegionState} {p : DynPlan} (hp : rs.plan = .dyn p) : NoBias rs := by
+  intro q hq; rw [hp] at hq; cases hq
+
+theorem noBias_init (r : RegionId) : NoBias (RegionState.init r) := by
+  intro p hp
+  unfold RegionState.init at hp
+  simp only at hp
+  split at hp
+  · cases hp; rfl
+  · cases hp
+
+theorem channelMaskSet_nobias (rs : RegionState) (m : Mask) (h : NoBias rs) : NoBias (channelMaskSet rs m) := by
+  unfold channelMaskSet
+  cases hp : rs.plan with
+  | dyn p => exact noBias_dyn (p := { p with mask := m }) rfl
+  | fix p =>
+    intro q hq
+    simp only [Plan.fix.injEq] at hq
+    cases hq
+    exact h p hp
+
+theorem processJoinAccept_nobias (rs rs' : RegionState) (cf : Option CfList) (h : NoBias rs)
+    (hp : processJoinAccept rs cf = .ok rs') : NoBias rs' := by
+  unfold processJoinAccept at hp
+  split at hp
+  · rename_i p freqs hpl
+    obtain ⟨chans, _, hp⟩ := Except.bind_eq_ok hp
+    cases Except.pure_eq_ok hp
+    exact noBias_dyn (p := { p with channels := chans }) rfl
+  · rename_i p m hpl
+    cases Except.pure_eq_ok hp
+    intro q hq
+    simp only [Plan.fix.injEq] at hq
+    cases hq
+    exact h p hpl
+  · cases Except.pure_eq_ok hp; exact h
+
+theorem otaaAccept_nobias (m m' : MacState) (j : RxJoinAccept) (h : NoBias m.region) (ha : otaaAccept m j = .ok m') :
+    NoBias m'.region := by
+  unfold otaaAccept at ha
+  obtain ⟨region, hreg, ha⟩ := Except.bind_eq_ok ha
+  obtain ⟨dd, _, ha⟩ := Except.bind_eq_ok ha
+  cases Except.pure_eq_ok ha
+  exact processJoinAccept_nobias m.region region j.cfList h hreg
+
+theorem answers_nobias {snr : Int} {cmds : List C08.Cmd} {st st' : C08.St} {as : List C08.Ans} (h : C08.Answers snr cmds st as st')
+    (hn : NoBias st.2.1) : NoBias st'.2.1 := by
+  induction h with
+  | nil st => exact hn
+  | skip cid p rest st as st' _ _ ih => exact ih hn
+  | devStatus p rest st as st' _ ih => exact ih hn
+  | rxParam p rest st ans st1 as st' ho _ ih =>
+    obtain ⟨dl, f, _, _, e, _⟩ := ho
+    exact ih (by rw [e]; exact hn)
+  | rxTiming p rest st st1 as st' ho _ ih =>
+    obtain ⟨b, d, _, _, e⟩ := ho
+    subst e; exact ih hn
+  | newChannel p rest st ans st1 as st' hf ho _ ih =>
+    obtain ⟨idx, f, r, a, b, _, _, _, _, _, _, _, hno, hyes⟩ := ho
+    apply ih
+    cases hab : (a && b) with
+    | false => rw [hno hab]; exact hn
+    | true =>
+      obtain ⟨pl, m, _, _, _, hh⟩ := hyes hab
+      rcases hh with ⟨_, _, e⟩ | ⟨_, _, _, _, e⟩ <;> rw [e] <;> exact noBias_dyn (p := _) rfl
+  | dlChannel p rest st ans st1 as st' hf ho _ ih =>
+    obtain ⟨idx, f, a, b, _, _, _, _, _, _, hno, hyes⟩ := ho
+    apply ih
+    cases hab : (a && b) with
+    | false => rw [hno hab]; exact hn
+    | true =>
+      obtain ⟨pl, c, _, _, _, _, _, e⟩ := hyes hab
+      rw [e]; exact noBias_dyn (p := _) rfl
+  | linkAdr ps p rest st ans st1 as st' hrest ho _ ih =>
+    obtain ⟨mask, rfu, b0, _, _, h7, hnn, _⟩ := ho
+    apply ih
+    by_cases ha : ans = 7
+    · obtain ⟨d, pw, _, _, _, e⟩ := h7 ha
+      rw [e]; exact channelMaskSet_nobias _ _ hn
+    · rw [(hnn ha).2]; exact hn
+
+theorem acceptCmds_nobias (pending : List Nat) (cfg : Config) (region : RegionState) (d : RxData) (snr : Int) (ctx : MacCtx)
+    (hn : NoBias region) (h : acceptCmds pending cfg region d snr false = .ok ctx) : NoBias ctx.region := by
+  obtain ⟨as1, as2, cfg1, rg1, m1, ha1, ha2, _⟩ := C08.accept_answers pending cfg region d snr ctx h
+  have h1 := answers_nobias ha1 hn
+  by_cases hport : d.fport = some 0
+  · rw [if_pos hport] at ha2
+    obtain ⟨m2, ha2⟩ := ha2
+    exact answers_nobias ha2 h1
+  · rw [if_neg hport] at ha2
+    rw [ha2.2.2]; exact h1
+
+
+theorem acceptState_region (m : MacState) (s : Session) (d : RxData) (N : Nat) (ctx : MacCtx) :
+    (acceptState m s d N ctx).region = ctx.region := by
+  unfold acceptState acceptFinish; simp only []; split <;> rfl
+
+theorem timeoutState_region (m : MacState) : (timeoutState m).region = m.region := by
+  unfold timeoutState macRx2Complete
+  cases m.st <;> rfl
+
+/-- no step configures a join bias -/
+theorem step_nobias {σ} (g : Rng σ) (m m' : MacState) (rs rs' : σ) (ev : Ev) (out : Out) (gh : Gh)
+    (hr : GhRel m gh) (hv : evOk ev = true) (hn : NoBias m.region) (h : step g (m, rs) ev = .ok ((m', rs'), out)) :
+    NoBias m'.region := by
+  cases ev with
+  | joinAbp da nwk app =>
+    simp only [step, pure, Except.pure, Except.ok.injEq, Prod.mk.injEq] at h
+    obtain ⟨⟨rfl, _⟩, _⟩ := h; exact hn
+  | setDr dr =>
+    simp only [step, pure, Except.pure, Except.ok.injEq, Prod.mk.injEq] at h
+    obtain ⟨⟨rfl, _⟩, _⟩ := h; exact hn
+  | setAdr on =>
+    simp only [step, pure, Except.pure, Except.ok.injEq, Prod.mk.injEq] at h
+    obtain ⟨⟨rfl, _⟩, _⟩ := h
+    have : (macSetAdr m on).region = m.region := by unfold macSetAdr; cases m.st <;> cases on <;> rfl
+    rw [this]; exact hn
+  | joinOtaa fault rx1 rx2 mp1 mp2 =>
+    obtain ⟨jo, m1, o, hj, _, _, ht⟩ := step_joinOtaa_inv g m m' rs rs' fault rx1 rx2 mp1 mp2 out h
+    obtain ⟨dr, tx, region', pw, r1, r2, _, hsel, hm1, _, _⟩ := macJoinOtaa_ok g m rs rs' jo m1 hj
+    have hn1 : NoBias m1.region := by rw [hm1]; exact (selectTxChannel_nobias g m.region region' dr .join _ rs' tx hn hsel).1
+    cases hjr : joinRes fault rx1 rx2 with
+    | some j => simp only [hjr] at ht; exact otaaAccept_nobias m1 m' j hn1 ht.1
+    | none => simp only [hjr] at ht; rw [ht.1]; exact hn1
+  | rxc v snr mp =>
+    cases gh with
+    | none =>
+      obtain ⟨rfl, _, _⟩ := step_rxc_notJoined g m m' rs rs' hr v snr mp out h
+      exact hn
+    | some last =>
+      obtain ⟨s, hst, rfl, hl⟩ := hr
+      have hvv : viewOk v = true := by simpa [evOk] using hv
+      obtain ⟨_, rf, _, ht⟩ := step_rxc_joined g m m' rs rs' s hst hl v snr mp hvv out h
+      cases hs : specRxc s.fcntDown v mp with
+      | none => simp only [hs] at ht; rw [ht.1]; exact hn
+      | some p =>
+        obtain ⟨N, d⟩ := p
+        simp only [hs] at ht
+        rw [ht.1, acceptState_region]; exact hn
+  | uplink data fport conf fault rx1 rx2 mp1 mp2 =>
+    cases gh with
+    | none =>
+      obtain ⟨rfl, _, _⟩ := step_uplink_notJoined g m m' rs rs' hr data fport conf fault rx1 rx2 mp1 mp2 out h
+      exact hn
+    | some last =>
+      obtain ⟨s, hst, rfl, hl⟩ := hr
+      have hvv : rxOk rx1 = true ∧ rxOk rx2 = true := by simpa [evOk] using hv
+      obtain ⟨so, m1, hsend, _, hst1, _, ht⟩ :=
+        step_uplink_joined g m m' rs rs' s hst hl data fport conf fault rx1 rx2 mp1 mp2 hvv.1 hvv.2 out h
+      obtain ⟨dr, tx, region', pw, r1, r2, _, _, hsel, hm1, _, _⟩ := macSend_joined g m s hst data fport conf rs rs' _ m1 hsend
+      have hn1 : NoBias m1.region := by rw [hm1]; exact (selectTxChannel_nobias g m.region region' dr .data rs rs' tx hn hsel).1
+      have hacc : ∀ N d snr ctx, acceptCmds (sentSession s conf).pending m1.cfg m1.region d snr false = .ok ctx →
+          NoBias (acceptState m1 (sentSession s conf) d N ctx).region := by
+        intro N d snr ctx hc
+        rw [acceptState_region]; exact acceptCmds_nobias _ _ _ d snr ctx hn1 hc
+      unfold UplinkTail at ht
+      cases fault with
+      | none =>
+        simp only at ht
+        cases hsc : specCycle (sentSession s conf).fcntDown rx1 rx2 mp1 mp2 with
+        | accepted N d snr => simp only [hsc] at ht; obtain ⟨ctx, hc, rfl, _⟩ := ht; exact hacc N d snr ctx hc
+        | ended => simp only [hsc] at ht; rw [ht.1, timeoutState_region]; exact hn1
+        | nothing => simp only [hsc] at ht; rw [ht.1, timeoutState_region]; exact hn1
+      | some k =>
+        simp only at ht
+        obtain ⟨m2, hm2, rfl, _⟩ := ht
+        rw [faultAfterTx_eq, timeoutState_region]
+        cases hsc : specFaulted (sentSession s conf).fcntDown k rx1 rx2 mp1 mp2 with
+        | accepted N d snr => simp only [hsc] at hm2; obtain ⟨ctx, hc, rfl⟩ := hm2; exact hacc N d snr ctx hc
+        | ended => simp only [hsc] at hm2; rw [hm2, timeoutState_region]; exact hn1
+        | nothing => simp only [hsc] at hm2; rw [hm2]; exact hn1
+
+/-- without a join bias the uplink's TxConfig carries the configured data rate (in every region) -/
+theorem macSend_txAt' {σ} (g : Rng σ) (m m1 : MacState) (s : Session) (hst : m.st = .joined s) (hwf : MacWF m)
+    (hnb : NoBias m.region) (data : List Nat) (fport : Nat) (conf : Bool) (rs rs' : σ) (so : SendOut)
+    (h : macSend g m data fport conf rs = .ok (some so, m1, rs')) : TxAt m.region.id m.cfg.dataRate so.tx := by
+  obtain ⟨dr, tx, region', pw, r1, r2, _, hdr, hsel, _, _, ho⟩ := macSend_joined g m s hst data fport conf rs rs' _ m1 h
+  simp only [Option.some.injEq] at ho
+  subst ho
+  have e := (selectTxChannel_nobias g m.region region' dr .data rs rs' tx hnb hsel).2 rfl
+  obtain ⟨_, hg, _, _⟩ := C09.selectTxChannel_legal g m.region region' dr .data rs rs' tx hwf.region hsel
+  have hup := (cfgWF_iff.mp hwf.cfg).1
+  obtain ⟨_, _, hlt⟩ := isUplink_get hup
+  have hn := (drOfNat_tot m.cfg.dataRate).elim hdr
+  rw [e, hn, Nat.mod_eq_of_lt (by omega)] at hg
+  exact ⟨tx.datarate, hg, rfl, rfl⟩
+
+
 theorem otaaAccept_cfg (m m' : MacState) (j : RxJoinAccept) (h : otaaAccept m j = .ok m') :
     m'.cfg.adrEnabled = m.cfg.adrEnabled ∧ m'.cfg.dataRate = m.cfg.dataRate := by
   unfold otaaAccept at h
@@ -373,18 +670,19 @@ theorem header_descOf (s : Session) (cfg : Config) (r : RegionId) (data : List N
   simp [descOf, abs, Auto.header, lowerExists, adrAckLimit, e64]
 
 theorem step_adrRel {σ} (g : Rng σ) (r : RegionId) (m m' : MacState) (rs rs' : σ) (ev : Ev) (out : Out) (dg : DG)
-    (hr : AdrRel r m dg) (hv : evOk ev = true ∧ validEv r ev = true) (h : step g (m, rs) ev = .ok ((m', rs'), out)) :
-    ∃ dg', AdrStep r dg ev out dg' ∧ AdrRel r m' dg' := by
+    (nb : Bool) (hr : AdrRel r nb m dg) (hv : evOk ev = true ∧ validEv r ev = true)
+    (h : step g (m, rs) ev = .ok ((m', rs'), out)) : ∃ dg', AdrStep r nb dg ev out dg' ∧ AdrRel r nb m' dg' := by
   obtain ⟨gh, a⟩ := dg
-  obtain ⟨hgh, hwf, hid, hon, hdr, hses⟩ := hr
-  simp only at hgh hon hdr hses
+  obtain ⟨hgh, hwf, hid, hon, hdr, hnb, hses⟩ := hr
+  simp only at hgh hon hdr hnb hses
+  have hnb' : nb = true → NoBias m'.region := fun e => step_nobias g m m' rs rs' ev out gh hgh hv.1 (hnb e) h
   have hgh' := step_ghRel g m m' rs rs' ev out gh hgh hv.1 h
   have hk : Keeps m m' := (step_safe g m rs ev hwf (by unfold ValidEv; rw [hid]; exact hv.2)).elim h
   have hid' : m'.region.id = r := by rw [hk.2.1, hid]
-  suffices hs : ∃ a', (AdrStep r (gh, a) ev out (ghStep gh ev, a')) ∧ a'.adrOn = m'.cfg.adrEnabled ∧ a'.dr = m'.cfg.dataRate ∧
+  suffices hs : ∃ a', (AdrStep r nb (gh, a) ev out (ghStep gh ev, a')) ∧ a'.adrOn = m'.cfg.adrEnabled ∧ a'.dr = m'.cfg.dataRate ∧
       (∀ s, m'.st = .joined s → a'.ackOwed = s.ackOwed ∧ a'.cnt = s.adrAckCnt) by
     obtain ⟨a', h1, h2, h3, h4⟩ := hs
-    exact ⟨(ghStep gh ev, a'), h1, hgh', hk.1, hid', h2, h3, h4⟩
+    exact ⟨(ghStep gh ev, a'), h1, hgh', hk.1, hid', h2, h3, hnb', h4⟩
   cases ev with
   | joinAbp da nwk app =>
     simp only [step, pure, Except.pure, Except.ok.injEq, Prod.mk.injEq] at h
@@ -480,9 +778,14 @@ theorem step_adrRel {σ} (g : Rng σ) (r : RegionId) (m m' : MacState) (rs rs' :
       rw [← hfr, hid, ← ha] at hhead
       rw [← hfr] at hconf hfc
       have hsent : abs (sentSession s conf) m1.cfg = a.afterSend := by rw [hcfg1, ha]; rfl
-      have htx : r.isFixed = false → TxAt r a.dr so.tx := by
+      have htx : (r.isFixed = false ∨ nb = true) → TxAt r a.dr so.tx := by
         intro hfx
-        have := macSend_txAt g m m1 s hst hwf (by rw [hid]; exact hfx) data fport conf rs rs' so hsend
+        have hno : NoBias m.region := by
+          rcases hfx with hfx | hfx
+          · obtain ⟨p, hp⟩ := (regionWF_isFixed hwf.region).2 (by rw [hid]; exact hfx)
+            exact noBias_dyn hp
+          · exact hnb hfx
+        have := macSend_txAt' g m m1 s hst hwf hno data fport conf rs rs' so hsend
         rw [hid, ← hdr] at this
         exact this
       have hfd : (sentSession s conf).fcntDown = s.fcntDown := rfl
@@ -597,12 +900,12 @@ automaton moves as `AdrStep` says — the data rate steps down exactly when the 
 accepted downlink reaches 96, 128, … with ADR on (`Auto.timeout`, `stepdown_only_at`), any accepted
 downlink restarts the count, the ACK bit is set in the first uplink after one or more accepted
 confirmed downlinks and in no other. -/
-theorem history_header_bits {σ} (g : Rng σ) (r : RegionId) (m : MacState) (rs : σ) (dg : DG) (hr : AdrRel r m dg)
+theorem history_header_bits {σ} (g : Rng σ) (r : RegionId) (nb : Bool) (m : MacState) (rs : σ) (dg : DG) (hr : AdrRel r nb m dg)
     (evs : List Ev) (hv : ∀ ev ∈ evs, evOk ev = true ∧ validEv r ev = true) (ms' : MacState × σ) (outs : List Out)
-    (h : run g (m, rs) evs = .ok (ms', outs)) : TraceR (AdrStep r) dg (evs.zip outs) := by
+    (h : run g (m, rs) evs = .ok (ms', outs)) : TraceR (AdrStep r nb) dg (evs.zip outs) := by
   have hc := run_chain g (m, rs) ms' evs outs h
-  exact chain_traceR g (AdrStep r) (AdrRel r) (fun ev => evOk ev = true ∧ validEv r ev = true)
-    (fun m s ev m' s' out gh hr hv hs => step_adrRel g r m m' s s' ev out gh hr hv hs)
+  exact chain_traceR g (AdrStep r nb) (AdrRel r nb) (fun ev => evOk ev = true ∧ validEv r ev = true)
+    (fun m s ev m' s' out gh hr hv hs => step_adrRel g r m m' s s' ev out gh nb hr hv hs)
     (m, rs) ms' (evs.zip outs) dg hr (fun x hx => hv x.1 (List.of_mem_zip hx).1) hc
 
 /-- the automaton of a freshly initialised device: ADR on, data rate 0 -/
@@ -611,10 +914,10 @@ def auto0 : Auto := { ackOwed := false, adrOn := true, cnt := 0, dr := 0 }
 theorem history_header_bits_init {σ} (g : Rng σ) (r : RegionId) (maxPower : Nat) (gain : Int) (hg : gainOk r gain = true) (rs : σ)
     (evs : List Ev) (hv : ∀ ev ∈ evs, evOk ev = true ∧ validEv r ev = true) (ms' : MacState × σ) (outs : List Out)
     (h : run g (MacState.init (RegionState.init r) maxPower gain, rs) evs = .ok (ms', outs)) :
-    TraceR (AdrStep r) (none, auto0) (evs.zip outs) := by
-  refine history_header_bits g r _ rs (none, auto0) ?_ evs hv ms' outs h
+    TraceR (AdrStep r true) (none, auto0) (evs.zip outs) := by
+  refine history_header_bits g r true _ rs (none, auto0) ?_ evs hv ms' outs h
   obtain ⟨h1, h2, h3, _⟩ := C08.ansRel_init r maxPower gain hg
-  exact ⟨h1, h2, h3, rfl, rfl, fun s hs => by cases hs⟩
+  exact ⟨h1, h2, h3, rfl, rfl, fun _ => noBias_init r, fun s hs => by cases hs⟩
 
 /-! non-vacuity: 97 uplinks without any downlink at DR3 in EU868 — ADRACKReq from the 65th on, the
 data rate steps down once (at 96); a confirmed downlink then restarts the count and is ACKed once -/
@@ -635,9 +938,9 @@ example : (run lcg (MacState.init (RegionState.init .EU868) 14 0, 1) demoHistory
       (fun r => (r.1.1.cfg.dataRate, ((bits r.2).drop 63).take 3, (bits r.2).drop 97)) =
     some (2, [(false, true, false), (false, true, true), (false, true, true)],
           [(false, true, true), (true, true, false), (false, true, false)]) := by decide +kernel
-example : AdrRel .EU868 (MacState.init (RegionState.init .EU868) 14 0) (none, auto0) := by
+example : AdrRel .EU868 true (MacState.init (RegionState.init .EU868) 14 0) (none, auto0) := by
   obtain ⟨h1, h2, h3, _⟩ := C08.ansRel_init .EU868 14 0 (by decide)
-  exact ⟨h1, h2, h3, rfl, rfl, fun s hs => by cases hs⟩
+  exact ⟨h1, h2, h3, rfl, rfl, fun _ => noBias_init _, fun s hs => by cases hs⟩
 end C12
 
 #print axioms C12.header_refines
@@ -651,3 +954,6 @@ end C12
 #print axioms C12.history_header_bits_init
 #print axioms C12.answers_adr
 #print axioms C12.macSend_txAt
+#print axioms C12.selectTxChannel_nobias
+#print axioms C12.step_nobias
+#print axioms C12.macSend_txAt'
